@@ -205,8 +205,12 @@ theorem elimOne_all (used : List String) (i i' : Imp) (h : elimOne used i = some
   · rename_i hs
     cases h
     simp [hs]
-  · rename_i ss hs
+  · rename_i hs
+    cases h
+    simp [hs]
+  · rename_i s ss0 hs
     simp only at h
+    generalize s :: ss0 = ss at h hs
     split at h
     · cases h
     · split at h
